@@ -770,3 +770,201 @@ fn new_gen_with(r: &mut Rng, g: Genesis) -> Option<(Gen, Genesis, crate::val::Va
     let _ = new_gen; // (the random families use chain::new_gen)
     Some((gen, g, snap0))
 }
+
+// ================================================================================================ known findings
+// Deterministic witness scripts of the recorded findings. Each script is executed on the real contracts (and, like
+// every case, compared with the model); `reproduced` is decided from the implementation's own answers.
+fn val_list(v: &crate::val::Val) -> Vec<crate::val::Val> { if let crate::val::Val::L(x) = v { x.clone() } else { vec![] } }
+fn val_u128(v: &crate::val::Val) -> u128 { if let crate::val::Val::Z(s) = v { s.parse().unwrap_or(0) } else { 0 } }
+fn q_ok_fields(v: &crate::val::Val) -> Option<Vec<u128>> {
+    let xs = val_list(v);
+    if xs.len() != 2 { return None; }
+    match &xs[1] { crate::val::Val::L(f) => Some(f.iter().map(val_u128).collect()), z => Some(vec![val_u128(z)]) }
+}
+
+fn finding_genesis(fee: (&str, u128), max_farms: u32) -> Genesis {
+    let mut r = Rng::new(7);
+    let mut g = default_genesis(&mut r);
+    g.time = 1_714_000_000 * NANOS;
+    g.epoch_genesis = 1_714_000_000;
+    g.epoch_duration = DAY;
+    g.fm_max_farms = max_farms;
+    g.fm_epoch_buffer = 14;
+    g.fm_min_unlock = DAY;
+    g.fm_max_unlock = 31_556_926;
+    g.fm_penalty = DEC / 10;
+    g.fm_create_fee = (fee.0.to_string(), fee.1);
+    g.pm_fee = ("uusd".to_string(), 1000);
+    g.tf_fee = vec![("uom".to_string(), 1000)];
+    g
+}
+
+impl Gen {
+    fn std_fees() -> SFees { SFees { protocol: DEC / 1000, swap: 3 * DEC / 1000, burn: 0, extra: vec![] } }
+    fn zero_fees() -> SFees { SFees { protocol: 0, swap: 0, burn: 0, extra: vec![] } }
+    fn rewards_of(&mut self, who: &str, until: Option<u64>) -> Option<Vec<(String, u128)>> {
+        let v = self.query(SQuery::Rewards { addr: who.to_string(), until });
+        let xs = val_list(&v);
+        if xs.len() != 2 { return None; }
+        Some(val_list(&xs[1]).iter().map(|c| { let f = val_list(c); (if let crate::val::Val::S(s) = &f[0] { s.clone() } else { String::new() }, val_u128(&f[1])) }).collect())
+    }
+
+    /// F-until: Claim{until_epoch} older than the claimant's newest weight snapshot rewrites his history
+    fn finding_until(&mut self) -> (bool, String) {
+        let Some(pool) = self.mk_pool("a", &[("uom", 6), ("uusd", 6)], None, Self::std_fees()) else { return (false, "setup".into()) };
+        let lp = self.lp_of(&pool);
+        self.provide_plain("alice", &pool, vec![("uom".into(), 1_000_000_000), ("uusd".into(), 1_000_000_000)]);
+        self.provide_plain("bob", &pool, vec![("uom".into(), 1_000_000_000), ("uusd".into(), 1_000_000_000)]);
+        self.tx("alice", SMsg::FmPosCreate { id: Some("a".into()), dur: DAY, receiver: None }, vec![(lp.clone(), 1000)]);
+        self.mk_farm("carol", &lp, "uom", 1000, 10, Some("f".into()), 1);
+        for _ in 0..5 { self.next_epoch(); }
+        self.tx("bob", SMsg::FmPosCreate { id: Some("b".into()), dur: DAY, receiver: None }, vec![(lp.clone(), 9000)]); // epoch 5, in effect from 6
+        self.next_epoch();
+        self.next_epoch(); // epoch 7
+        let ok = self.tx("bob", SMsg::FmClaim(Some(2)), vec![]);
+        // bob now asks what he is owed up to epoch 5 — before his weight took effect
+        let r = self.rewards_of("bob", Some(5));
+        let claim_all = self.tx("bob", SMsg::FmClaim(None), vec![]);
+        let credited: u128 = r.as_ref().map(|v| v.iter().map(|c| c.1).sum()).unwrap_or(0);
+        (ok && (credited > 0 || r.is_none() || !claim_all),
+         format!("claim(until=2) accepted={}, rewards credited for epochs 3..5 (weight in effect from 6) = {:?}, later full claim accepted={}", ok, r, claim_all))
+    }
+
+    /// F-sat: saturating subtraction desynchronises the contract total from the users' weights
+    fn finding_sat(&mut self) -> (bool, String) {
+        let Some(pool) = self.mk_pool("a", &[("uom", 6), ("uusd", 6)], None, Self::std_fees()) else { return (false, "setup".into()) };
+        let lp = self.lp_of(&pool);
+        self.provide_plain("alice", &pool, vec![("uom".into(), 1_000_000_000), ("uusd".into(), 1_000_000_000)]);
+        self.provide_plain("bob", &pool, vec![("uom".into(), 1_000_000_000), ("uusd".into(), 1_000_000_000)]);
+        self.tx("alice", SMsg::FmPosCreate { id: Some("a".into()), dur: 5_000_000, receiver: None }, vec![(lp.clone(), 1)]);
+        self.tx("bob", SMsg::FmPosCreate { id: Some("b".into()), dur: 5_000_000, receiver: None }, vec![(lp.clone(), 1000)]);
+        self.tx("alice", SMsg::FmPosExpand("u-a".into()), vec![(lp.clone(), 1)]);
+        self.next_epoch();
+        self.tx("alice", SMsg::FmClaim(None), vec![]);
+        self.tx("alice", SMsg::FmPosClose("u-a".into(), None), vec![]);
+        self.next_epoch();
+        // newest weights per address for this LP
+        let ws = self.sim.weights();
+        let mut latest: std::collections::BTreeMap<String, (u64, u128)> = Default::default();
+        for (a, l, e, w) in ws { if l == lp { let x = latest.entry(a).or_insert((e, w)); if e >= x.0 { *x = (e, w); } } }
+        let total = latest.get("FM").map(|x| x.1).unwrap_or(0);
+        let users: u128 = latest.iter().filter(|(a, _)| a.as_str() != "FM").map(|(_, x)| x.1).sum();
+        (total < users, format!("contract total weight {} < sum of users' weights {}", total, users))
+    }
+
+    /// F-first-epoch: first effective epoch of a new LP denom skipped for a user with an older cursor
+    fn finding_first_epoch(&mut self) -> (bool, String) {
+        let Some(p1) = self.mk_pool("a", &[("uom", 6), ("uusd", 6)], None, Self::std_fees()) else { return (false, "setup".into()) };
+        let Some(p2) = self.mk_pool("b", &[("uusdc", 6), ("uusd", 6)], None, Self::std_fees()) else { return (false, "setup".into()) };
+        let (lp1, lp2) = (self.lp_of(&p1), self.lp_of(&p2));
+        self.provide_plain("alice", &p1, vec![("uom".into(), 1_000_000_000), ("uusd".into(), 1_000_000_000)]);
+        self.provide_plain("alice", &p2, vec![("uusdc".into(), 1_000_000_000), ("uusd".into(), 1_000_000_000)]);
+        self.tx("alice", SMsg::FmPosCreate { id: Some("a".into()), dur: DAY, receiver: None }, vec![(lp1.clone(), 1000)]);
+        for _ in 0..5 { self.next_epoch(); }
+        self.tx("alice", SMsg::FmClaim(None), vec![]); // cursor = 5
+        for _ in 0..4 { self.next_epoch(); } // epoch 9
+        self.mk_farm("carol", &lp2, "uom", 1000, 5, Some("f".into()), 1); // epochs 10..15
+        self.tx("alice", SMsg::FmPosCreate { id: Some("b".into()), dur: DAY, receiver: None }, vec![(lp2.clone(), 1000)]); // first ever LP2 position, in effect from 10
+        for _ in 0..3 { self.next_epoch(); } // epoch 12
+        let r = self.rewards_of("alice", None);
+        let got: u128 = r.as_ref().map(|v| v.iter().filter(|c| c.0 == "uom").map(|c| c.1).sum()).unwrap_or(0);
+        (r.is_some() && got < 3000, format!("sole LP2 staker for epochs 10..12 at 1000/epoch is owed 3000, Rewards reports {}", got))
+    }
+
+    /// numeric findings: the implementation returns exactly the pinned values whose violation of the exact bound is a
+    /// theorem in coq/Props/Findings.v
+    fn finding_ss_round(&mut self) -> (bool, String) {
+        let Some(pool) = self.mk_pool("s", &[("uusd", 6), ("uusdc", 6)], Some(85), Self::zero_fees()) else { return (false, "setup".into()) };
+        self.provide_plain("alice", &pool, vec![("uusd".into(), 1_000_000_000), ("uusdc".into(), 1_000_000_000)]);
+        let v = self.query(SQuery::Simulation { offer: ("uusd".into(), 1), ask: "uusdc".into(), pool: pool.clone() });
+        let f = q_ok_fields(&v);
+        (f.as_ref().map(|x| x[0] == 1).unwrap_or(false), format!("balanced 1e9/1e9 amp 85 zero-fee pool: 1 unit in -> {:?} out (exact output < 1; invariant decreases, Findings.F_ss_round_refuted)", f.map(|x| x[0])))
+    }
+    fn finding_ss_d(&mut self) -> (bool, String) {
+        let Some(pool) = self.mk_pool("s", &[("aweth", 18), ("awbtc", 18)], Some(10000), Self::zero_fees()) else { return (false, "setup".into()) };
+        self.provide_plain("alice", &pool, vec![("aweth".into(), 46 * 10u128.pow(18)), ("awbtc".into(), 3030 * 10u128.pow(18))]);
+        let v = self.query(SQuery::Simulation { offer: ("aweth".into(), 186), ask: "awbtc".into(), pool: pool.clone() });
+        let f = q_ok_fields(&v);
+        (f.as_ref().map(|x| x[0] == 176).unwrap_or(false), format!("amp 10000, reserves (46, 3030)e18: 186 units in -> {:?} out (exact >= 195, Findings.F_ss_D_refuted)", f.map(|x| x[0])))
+    }
+    fn finding_d_core(&mut self) -> (bool, String) {
+        let Some(pool) = self.mk_pool("s", &[("uusd", 6), ("uusdc", 6), ("uom", 6), ("ubtc", 6)], Some(1), Self::zero_fees()) else { return (false, "setup".into()) };
+        let ok = self.provide_plain("alice", &pool, vec![("ubtc".into(), 1), ("uom".into(), 1), ("uusd".into(), 10u128.pow(30)), ("uusdc".into(), 1)]);
+        let lp = self.lp_of(&pool);
+        let supply = self.sim.supply(&lp);
+        (ok && supply > 10u128.pow(15), format!("first deposit (1e30,1,1,1) amp 1 accepted={}, LP supply minted {} (exact invariant < 4e12, Findings.F_d_core_refuted)", ok, supply))
+    }
+    fn finding_rev18(&mut self) -> (bool, String) {
+        let fees = SFees { protocol: 2 * DEC / 100, swap: 3 * DEC / 100, burn: DEC / 100, extra: vec![16 * DEC / 1000] };
+        let Some(pool) = self.mk_pool("c", &[("aweth", 18), ("awbtc", 18)], None, fees) else { return (false, "setup".into()) };
+        self.provide_plain("alice", &pool, vec![("aweth".into(), 10u128.pow(24)), ("awbtc".into(), 10u128.pow(24))]);
+        let ask = 10u128.pow(22);
+        let v = self.query(SQuery::ReverseSimulation { ask: ("awbtc".into(), ask), offer_denom: "aweth".into(), pool: pool.clone() });
+        let Some(f) = q_ok_fields(&v) else { return (false, "reverse simulation failed".into()) };
+        let v2 = self.query(SQuery::Simulation { offer: ("aweth".into(), f[0] + 1), ask: "awbtc".into(), pool: pool.clone() });
+        let g = q_ok_fields(&v2);
+        (g.as_ref().map(|x| x[0] < ask).unwrap_or(false), format!("reverse quote {} for ask {}; offering quote+1 returns {:?} (short by {:?})", f[0], ask, g.as_ref().map(|x| x[0]), g.as_ref().map(|x| ask.saturating_sub(x[0]))))
+    }
+    fn finding_ss_tol(&mut self) -> (bool, String) {
+        let Some(pool) = self.mk_pool("s", &[("uusd", 6), ("uusdc", 6)], Some(85), Self::std_fees()) else { return (false, "setup".into()) };
+        self.provide_plain("alice", &pool, vec![("uusd".into(), 1_000_000_000), ("uusdc".into(), 1_000_000_000)]);
+        let with_tol = self.tx("bob", SMsg::PmProvide { liq_slip: Some(DEC / 2), swap_slip: None, receiver: None, pool: pool.clone(), unlock: None, lock_id: None }, vec![("uusd".into(), 1_000_000), ("uusdc".into(), 1_000_000)]);
+        let without = self.tx("bob", SMsg::PmProvide { liq_slip: None, swap_slip: None, receiver: None, pool: pool.clone(), unlock: None, lock_id: None }, vec![("uusd".into(), 1_000_000), ("uusdc".into(), 1_000_000)]);
+        (!with_tol && without, format!("exactly proportional stableswap deposit: with 50% tolerance accepted={}, without tolerance accepted={}", with_tol, without))
+    }
+    fn finding_ss_spread(&mut self) -> (bool, String) {
+        let Some(pool) = self.mk_pool("s", &[("uusd", 6), ("aweth", 18)], Some(85), Self::zero_fees()) else { return (false, "setup".into()) };
+        self.provide_plain("alice", &pool, vec![("aweth".into(), 10u128.pow(24)), ("uusd".into(), 10u128.pow(12))]);
+        let v = self.query(SQuery::Simulation { offer: ("aweth".into(), 1000 * 10u128.pow(18)), ask: "uusd".into(), pool: pool.clone() });
+        let f = q_ok_fields(&v);
+        let strict = self.tx("bob", SMsg::PmSwap { ask: "uusd".into(), belief: None, max_slip: Some(DEC / 100), receiver: None, pool: pool.clone() }, vec![("aweth".into(), 1000 * 10u128.pow(18))]);
+        (f.as_ref().map(|x| x[0] >= 999_988_000).unwrap_or(false) && !strict, format!("selling 1000 of the 18-decimals token: simulation (return, slippage) = {:?}; swap with max_slippage 1% accepted={}", f.map(|x| (x[0], x[1])), strict))
+    }
+    fn finding_clamp(&mut self) -> (bool, String) {
+        let Some(pool) = self.mk_pool("a", &[("uom", 6), ("uusd", 6)], None, Self::std_fees()) else { return (false, "setup".into()) };
+        let lp = self.lp_of(&pool);
+        let mut created = 0u32;
+        for i in 0..103u32 { if self.mk_farm("alice", &lp, "uom", 1000, 2, Some(format!("k{}", i)), 1) { created += 1; } }
+        (created > 101, format!("max_concurrent_farms = 101, {} unexpired farms created for one LP token", created))
+    }
+}
+
+pub fn generate_findings(_seed: u64, thorough: bool) -> Family {
+    let mut fam = Family::new(
+        "findings",
+        "From MD.Model Require Import Base Ownable Epoch PoolMath Types PoolManager FarmManager Chain CasesChain.",
+        "chain_case",
+        "run_chain_case",
+        "one deterministic witness script per recorded finding, executed on the real contracts (reproduced or not is decided from the implementation's own answers) and compared with the model like every other case",
+    );
+    type F = fn(&mut Gen) -> (bool, String);
+    let mut list: Vec<(&str, (&str, u128), u32, F)> = vec![
+        ("F-until", ("uom", 1000), 3, Gen::finding_until as F),
+        ("F-sat", ("uom", 1000), 3, Gen::finding_sat as F),
+        ("F-first-epoch", ("uom", 1000), 3, Gen::finding_first_epoch as F),
+        ("F-ss-round", ("uom", 1000), 3, Gen::finding_ss_round as F),
+        ("F-ss-D", ("uom", 1000), 3, Gen::finding_ss_d as F),
+        ("F-d-core", ("uom", 1000), 3, Gen::finding_d_core as F),
+        ("F-rev18", ("uom", 1000), 3, Gen::finding_rev18 as F),
+        ("F-ss-tol", ("uom", 1000), 3, Gen::finding_ss_tol as F),
+        ("F-ss-spread", ("uom", 1000), 3, Gen::finding_ss_spread as F),
+    ];
+    if thorough { list.push(("F-clamp", ("uom", 1000), 101, Gen::finding_clamp as F)); }
+    for (id, fee, maxf, f) in list {
+        let mut g = finding_genesis(fee, maxf);
+        // the numeric witnesses need 18-decimals denoms and very large balances
+        g.base_denoms = vec!["uom".into(), "uusd".into(), "uusdc".into(), "ubtc".into(), "aweth".into(), "awbtc".into()];
+        let big = 10u128.pow(34);
+        g.balances = g.users.iter().map(|u| (u.clone(), g.base_denoms.iter().map(|d| (d.clone(), big)).collect())).collect();
+        let mut r = Rng::new(11);
+        let Some((mut gen, g, snap0)) = new_gen_with(&mut r, g) else { continue; };
+        let (hit, descr) = f(&mut gen);
+        for (k, v) in gen.hist.iter() { fam.count_n(k, *v); }
+        if hit { fam.known_hits.push((id.to_string(), descr.clone())); }
+        fam.count(&format!("finding:{}:{}", id, if hit { "reproduced" } else { "not-reproduced" }));
+        let mut c = case_of(&gen, &g, &snap0, true);
+        c.descr = format!("FINDING {} reproduced={} :: {}\n{}", id, hit, descr, c.descr);
+        fam.push(c);
+    }
+    fam
+}
